@@ -253,16 +253,20 @@ PROPS["C12"] = {
 
 PROPS["C07"] = {
     "module": "Rl.Props.C07",
-    "targets": [{"name": "ed07", "gen": "ed07", "header_tokens": 9}],
+    # both targets run from the `sqlite` feature build of the harness (harness/target-sqlite): features are per property
+    "features": "sqlite",
+    "targets": [{"name": "ed07", "gen": "ed07", "header_tokens": 9},
+                {"name": "ed07s", "gen": "ed07s", "header_tokens": 9}],
     "shards": {"quick": 8, "thorough": 16},
-    "rule": 'ed07: emacs and vi key scripts on a pty with 1-5 history entries (multi-line, duplicates, multi-byte), arbitrary initial/in-progress lines, three quarters of the keys being history navigation (C-p, C-n, Up, Down in CSI and SS3 encodings, M-<, M->, vi j/k/+/- with counts) mixed with edits, quoted line breaks and searches. Oracle: the navigation spec machine (index + saved in-progress line) run over the Event::Any callbacks; Editor::history() after the read must equal the given entries.',
+    "rule": 'ed07: emacs and vi key scripts on a pty with 1-5 history entries (multi-line, duplicates, multi-byte), arbitrary initial/in-progress lines, three quarters of the keys being history navigation (C-p, C-n, Up, Down in CSI and SS3 encodings, M-<, M->, vi j/k/+/- with counts) mixed with edits, quoted line breaks and searches. Oracle: the navigation spec machine (index + saved in-progress line) run over the Event::Any callbacks; Editor::history() after the read must equal the given entries. ed07s: the same editor over Editor<_, SQLiteHistory> (in-memory database, the default history configuration of the crate) filled through add from the request (re-added older entries = holes inside the row ids, consecutive duplicates, refused empty lines, blank-led and multi-line entries, optional set_max_len(0..3) trimming = holes at the front / an emptied table whose len() stays positive), key scripts three quarters history navigation, no incremental search (SQLite searches go through FTS: C20). Same oracle, run over the surviving entries in row order: holes must be invisible (every stored entry shown as stored, in order, stopping at the oldest and newest); the entries read back through get() after the read must be unchanged.',
     "trivial_impl_regex": r"=> .*",
     "exhaustive": {"quick": False, "thorough": False},
     "trusted_base": ["pty harness (quiescence detection through /proc, one key press at a time) and diff",
-                     "scripted helpers are functions of the text (same table on both sides)"],
-    "unproved": [],
-    "level_text": "Lean theorems about the C07 navigation spec machine (up shows the stored entry verbatim with the cursor at its end; stops at the oldest; leaving and coming back restores the in-progress line and cursor exactly), the editor model diffed against the real editor on a pty, and the spec machine run as an oracle over the implementation's callbacks (entries in order, saved line restored char for char with its cursor, first/last, line-wise Up/Down first, stored history unchanged). Proved about the editor model: from a navigable state (growable buffers, cursors inside their texts, index within the history) editHistoryNext / editHistory never panic and refine the declarative steps navPrev / navNext / navFirst / navLast on (line, cursor, index, saved line) (C07_prev_refines, C07_next_refines, C07_model_prev); first/last equal the iterated single steps (C07_first_is_iterated_prev, C07_last_is_iterated_next); the saved line is written only when leaving the in-progress position (C07_saved_once); over arbitrary sequences of steps mixed with edits of recalled entries, returning to the end restores the in-progress line and cursor exactly (C07_return_restores). The SQLite back end is covered by C20.",
-    "level_note": 'Trusted: Lean kernel; pty harness; FileHistory back end only in this check.',
+                     "scripted helpers are functions of the text (same table on both sides)",
+                     "ed07s: the row store handed to the editor model is computed by the C20 model of SQLiteHistory (add = INSERT OR REPLACE under the unique index, set_max_len) from the request; SQLite itself and the rusqlite bindings are external"],
+    "unproved": ["C07_rows_simulation_statement"],
+    "level_text": "Lean theorems about the C07 navigation spec machine (up shows the stored entry verbatim with the cursor at its end; stops at the oldest; leaving and coming back restores the in-progress line and cursor exactly), the editor model diffed against the real editor on a pty, and the spec machine run as an oracle over the implementation's callbacks (entries in order, saved line restored char for char with its cursor, first/last, line-wise Up/Down first, stored history unchanged). Proved about the editor model: from a navigable state (growable buffers, cursors inside their texts, index within the history) editHistoryNext / editHistory never panic and refine the declarative steps navPrev / navNext / navFirst / navLast on (line, cursor, index, saved line) (C07_prev_refines, C07_next_refines, C07_model_prev); first/last equal the iterated single steps (C07_first_is_iterated_prev, C07_last_is_iterated_next); the saved line is written only when leaving the in-progress position (C07_saved_once); over arbitrary sequences of steps mixed with edits of recalled entries, returning to the end restores the in-progress line and cursor exactly (C07_return_restores). Back ends: the model reads the history through len()/get(index, direction) (histLen / histGetDir); the refinement theorems are proved for ANY back end whose answers stay below len (C07_prev_refines_store, C07_next_refines_store, C07_first_refines_store, C07_last_refines_store: Up takes the nearest entry at or before idx-1 and ITS index, Down the nearest at or after idx+1), and specialised to the default back end (index = position) they give the statements above; both back ends satisfy the side condition (C07_storeOK_list, C07_storeOK_rows). The editor on Editor<_, SQLiteHistory> with holes in the row ids is diffed against the model and judged by the same oracle (target ed07s).",
+    "level_note": 'Trusted: Lean kernel; pty harness; default (FileHistory) and SQLite (in-memory database) back ends.',
     "assumptions": ["keyseq_timeout = None (default)"],
 }
 PROPS["C08"] = {
